@@ -115,6 +115,8 @@ void Engine::setup_bus() {
 	bus.auto_answer = b.getb("auto_answer", true);
 	const J &af = b["answer_faults"];
 	for (size_t i = 0; i < af.size(); i++) bus.answer_faults[(uint64_t) af[i][0].num()] = bus::fault_from(af[i][1]);
+	const J &dat = b["drop_answers"];
+	for (size_t i = 0; i < dat.size(); i++) bus.drop_answer_types.insert((int) dat[i].num());
 	const J &tdl = b["type_delays"];
 	for (size_t i = 0; i < tdl.size(); i++) bus.type_delays[(int) tdl[i][0].num()] = {(uint64_t) tdl[i][1].num(), (uint64_t) tdl[i][2].num() * 1000};
 	const J &sw = b["slow_writes"];
@@ -248,7 +250,7 @@ void Engine::exec_op(const J &op, int task, int idx) {
 	if (k == "heal") {
 		// faults stop; every stall is cleared; then, until the wire is stable for two rounds: let 2.2 s pass (expiry) and have
 		// every node send a spontaneous message (the only moments the library re-evaluates a node)
-		bus.answer_faults.clear();
+		bus.answer_faults.clear(); bus.drop_answer_types.clear();
 		std::vector<size_t> order;
 		for (size_t i = 0; i < bus.nodes.size(); i++) if (bus.nodes[i].present) order.push_back(i);
 		if (op.getb("reverse")) std::reverse(order.begin(), order.end());
